@@ -115,7 +115,11 @@ func Verif_C12_malformed_refused() {
 		fields := []string{"fromnode", "tonode", "fromservice", "toservice"}
 		bad := verifapi.Choose(4)
 		rd = FirewallRuleData{"action": []string{"accept", "drop", "reject"}[verifapi.Choose(3)]}
-		rd[fields[bad]] = []string{"/ctl[12/", "/abc", "/a(/", "/", "/*a/"}[verifapi.Choose(5)]
+		pats := []string{"/ctl[12/", "/abc", "/a(/", "/", "/*a/", "/a)|(?:b/", "/)(/", "/x)y/"}
+		pi := verifapi.Choose(len(pats))
+		// patterns whose parentheses do not balance must not be repaired by the anchoring group wrapped around them
+		verifapi.Known("unbalanced-pattern-accepted-through-the-anchoring-group", pi == 5)
+		rd[fields[bad]] = pats[pi]
 		for i, f := range fields {
 			if i != bad && verifapi.Bool() {
 				rd[f] = []string{"lit", "/a.*/"}[verifapi.Choose(2)]
